@@ -343,3 +343,13 @@ reg("C45", "model_checking", "TLC exhaustive on the paging protocol of list_dpts
     "payload plan of C07 (declared shape) for every DPT: same JSON value.",
     "Trusted: TLC; JSON text equality of decoded values.",
     "DESIGN.md section 5 C45", driver="c45", entry="run")
+
+reg("C31", "exploration", "TLC: canonical signed form Canon (Keyring.tla) injective on bounded trees (deviation without length octets must fail) + laws LoadOk (with the sender table computed by TLC) / CanonOk / TamperOk judged by TLC on load and tamper sessions of keyrings written by an independent writer",
+    "An independent writer (XML text, canonical octets - compared with TLC's Canon for the first files -, AES-128-CBC, PBKDF2, SHA-256 from cryptography / hashlib) generates keyrings from "
+    "random project data: 0..8 interfaces of every type with 0..3 group entries of 0..5 (every tenth file: 40..60) senders, 0..12 group keys, 0..6 devices (also without sequence number, "
+    "duplicated addresses), with / without backbone, passwords and project names with non-ASCII and XML-special characters, attributes in random order. sync_load_keyring loads each; TLC judges the "
+    "loaded sender table against SenderTable(content) and the group keys, backbone, interfaces (passwords, user ids, authentication codes, sender lists) and devices against the content. "
+    "Each file and each ETS export shipped with the tests is then loaded with single changes (attribute value / name / removed / added, element renamed / removed / duplicated / swapped, "
+    "signature bits, wrong passwords) - TLC judges: refused with InvalidSecureConfiguration - and with changes outside the signed content (white space, a comment): accepted with the same content.",
+    "Trusted: TLC; cryptography / hashlib primitives (shared with the implementation); the keyring layout (KNX keyring 1, as written by ETS and read by Calimero: one length octet, modulo 256).",
+    "DESIGN.md section 5 C31", driver="c31", entry="run")
